@@ -21,8 +21,8 @@ def sh(cmd, cwd=None, timeout=1800):
 
 
 def do_import_cfg(src, sid, prop):
-    """like import, but the demo is run under the three feature configurations: it must pass in all of them on the pristine
-    tree and fail in at least one with the patch (C19 seeds)"""
+    """like import, but the demo is run under the three feature configurations: it must pass in the default one (and is
+    recorded for the others) on the pristine tree and fail with the patch in at least one in which it passed before (C19 seeds)"""
     dst = os.path.join(SEEDED, sid)
     wt = tempfile.mkdtemp(prefix="tzrs-confirm-", dir="/tmp")
     os.rmdir(wt)
@@ -38,9 +38,8 @@ def do_import_cfg(src, sid, prop):
             tail = [l for l in out.strip().splitlines() if l.startswith("test result")][:3]
             ran.append({"cmd": cmd, "rc": rc, "tail": tail})
             return rc, out
-        for c in cfgs:
-            rc, _ = run(f"cargo test --offline {c} --test demo")
-            ok &= rc == 0
+        pristine = [run(f"cargo test --offline {c} --test demo")[0] for c in cfgs]
+        ok &= pristine[0] == 0  # a demo that needs alloc cannot be built in the bare configuration: only the default one is required
         rc, _ = run(f"git apply {os.path.join(src, 'patch.diff')}")
         ok &= rc == 0
         builds = [run(f"cargo build --offline {c}")[0] for c in cfgs]
@@ -48,7 +47,7 @@ def do_import_cfg(src, sid, prop):
         ok &= rc == 0 and "42 passed" in out
         rc, _ = run("cargo test --offline --doc")
         ok &= rc == 0
-        fails = [run(f"cargo test --offline {c} --test demo")[0] != 0 for c in cfgs]
+        fails = [run(f"cargo test --offline {c} --test demo")[0] != 0 and pristine[i] == 0 for i, c in enumerate(cfgs)]
         ok &= any(fails) or any(b != 0 for b in builds[1:])
         ok &= builds[0] == 0
     finally:
